@@ -133,7 +133,8 @@ fn gen_cfg(rng: &mut Rng, expose: bool) -> Cfg {
     let triple = |rng: &mut Rng| -> String {
         if !rng.chance(1, 3) { return String::new(); }
         let p0 = *rng.pick(&["名詞", "動詞"][..]);
-        format!("{p},固有,*,* {p},甲,$3,$4\n{p} $1,乙,*,*\n{p},一般,*,* {p},丙,$3,$4\n{p},* 丁,$2,*,*\n", p = p0)
+        let q0 = *rng.pick(&["固有", "一般"][..]);
+        format!("{p},{q},基,* {p},甲,$3,$4\n{p} $1,乙,*,*\n{p},{q},* {p},丙,$3,$4\n{p},* 丁,$2,*,*\n", p = p0, q = q0)
     };
     let mut rewrite_def = String::from("[unigram rewrite]\n");
     rewrite_def.push_str(&triple(rng));
@@ -310,6 +311,13 @@ pub fn run(prop: &str, seed: u64, n: usize, outdir: &str, _corpus: Option<&str>)
             continue;
         }
         let mut model = match std::panic::catch_unwind(std::panic::AssertUnwindSafe(|| train(&c, iters, if expose { Some(1e-9) } else { None }))) { Ok(Some(m)) => m, _ => { *dist.entry("training_failed".into()).or_default() += 1; continue; } };
+        // 1 case in 3: a user lexicon whose SECOND row is malformed is offered first; the call must fail and leave no
+        // trace (everything below compares this in-memory model with copies that never saw the call)
+        if !expose && rng.chance(1, 3) {
+            let r = std::panic::catch_unwind(std::panic::AssertUnwindSafe(|| model.read_user_lexicon("uq,0,0,0,名詞,一般\nbroken,1\n".as_bytes()).is_err()));
+            flags.push(("c15_malformed_user_lexicon_is_an_error".into(), matches!(r, Ok(true)) as u8));
+            *dist.entry("malformed_user_lexicon_first".into()).or_default() += 1;
+        }
         *dist.entry(format!("templates_{}", if c.k >= 8 { "ge8" } else { "lt8" })).or_default() += 1;
         if c.virtual_tokens { *dist.entry("corpus_with_uncovered_tokens".into()).or_default() += 1; }
         let maxabs_of = |m: &Model| -> f64 { m.verif_merged().map(|(sets, matrix)| sets.iter().map(|s| s.0.abs()).chain(matrix.iter().map(|x| x.2.abs())).fold(0f64, f64::max)).unwrap_or(0.0) };
